@@ -169,6 +169,15 @@ func runCheck(prop, repo, verif, tier, work string, tmo int, verbose bool, updat
 		for n, c := range rep.Unknown {
 			unknownCalls[n] += c
 		}
+		for _, u := range append([]string{k}, rep.Used...) {
+			if uc := cs.ByKey[u]; uc != nil {
+				for _, e := range uc.Ensures {
+					if e.Assumed {
+						trusted["assumed clause (relied on by callers, not proved of the body): "+strings.TrimPrefix(u, modPath+"/")+"/ensures."+e.Label] = true
+					}
+				}
+			}
+		}
 		for _, u := range rep.Used {
 			if uc := cs.ByKey[u]; uc != nil && uc.Trusted {
 				trusted["trusted contract (assumed, body not verified): "+strings.TrimPrefix(u, modPath+"/")] = true
